@@ -31,7 +31,10 @@ class HistGen:
         self.next_id = 1
         self.free_again = []       # ids certainly absent (cancelled)
         self.used = []             # ids ever added
-        self.ts = 10
+        # timestamp regime of the history: small numbers, or wall-clock-like values in ms / us / ns
+        # (orders stamped "in the future" of a millisecond clock), or values straddling 2^48 / near 2^64
+        self.ts = rng.choice([10, 10, 10, 1_790_000_000_000, 1_790_000_000_000_000, 1_790_000_000_000_000_000,
+                              (1 << 48) - 20, (1 << 63) - 20, (1 << 64) - 2000])
         self.budget = (1 << 64) - 1  # keeps total supplied below 2^64
         self.forked = False
         self.big_hidden = set()   # ids whose display must not be amended down (see new_order)
